@@ -28,6 +28,7 @@ def families(tier, seed):
             for vec in (False,):      # (vectorize=True with kept caches raises KeyError on the second call: cache matter, C13)
                 out.append(dict(tag=f"{tag}/{solver}/second-call", features=dict(feats, solver=solver, second_call=True), kind="inputs_seq", model=model,
                                 inputs=inputs, solver=solver, vec=vec, T=1.0, dt=0.05))
+    out.append(dict(tag="I14-input-to-population-variable", features=dict(population_input=True), kind="population_input"))
     # the Torch / JAX / Fortran backends' own fixed-step loops and input plumbing (sample k drives step k on every backend)
     from checks import c02 as _c02
     for c in _c02.families(tier, seed):
@@ -36,7 +37,40 @@ def families(tier, seed):
     return out
 
 
+def population_input_case(c):
+    """An extrinsic input addressed to a variable of a Population: every unit is driven (broadcast), the output keeps one column per unit."""
+    import numpy as np
+    from pyrates import OperatorTemplate, NodeTemplate, CircuitTemplate
+    from pyrates.frontend.template.population import PopulationTemplate, Connectivity
+    op = OperatorTemplate(name="op", equations=["r' = -r/tau + r_in + u"],
+                          variables={"r": "output(0.4)", "tau": 2.0, "r_in": "input(0.0)", "u": "input(0.0)"}, path=None)
+    r0 = np.array([0.1, 0.2, 0.3])
+    pop = PopulationTemplate(name="a", node=NodeTemplate(name="na", operators=[op], path=None), n=3, params={"op/r": r0})
+    W = np.array([[0.0, 0.5, 0.0], [0.0, 0.0, -0.4], [0.3, 0.0, 0.0]])
+    tpl = CircuitTemplate(name="p", populations={"a": pop}, connections=[Connectivity(source="a/op/r", target="a/op/r_in", weights=W)])
+    u = np.round(np.sin(np.arange(10) * 0.7), 3)
+    try:
+        df = tpl.run(simulation_time=0.5, step_size=0.05, solver="euler", outputs={"r": "a/op/r"}, inputs={"a/op/u": u}, verbose=False,
+                     float_precision="float64")
+    except Exception as exn:
+        return dict(status="violated", fails=[dict(clause="run accepts an input addressed to a population variable", observed=f"{type(exn).__name__}: {exn}"[:300])])
+    ref = np.zeros((10, 3))
+    y = r0.copy()
+    for k in range(10):
+        ref[k] = y
+        y = y + 0.05 * (-y / 2.0 + W @ y + u[k])
+    got = np.asarray(df.values, dtype=float)
+    fails = []
+    if got.shape != ref.shape:
+        fails.append(dict(clause="population output under an extrinsic input: one column per unit", observed=list(got.shape), expected=list(ref.shape)))
+    elif not np.allclose(got, ref, rtol=1e-7, atol=1e-10):
+        fails.append(dict(clause="inputs: every unit of the population is driven by sample k during step k", observed=got[-1].tolist(), expected=ref[-1].tolist()))
+    return dict(status="violated" if fails else "ok", fails=fails)
+
+
 def case_fn(c):
+    if c["kind"] == "population_input":
+        return population_input_case(c)
     if c["kind"] in ("loops", "inputs_backend"):
         from checks import c02 as _c02
         return _c02.dispatch(c)
